@@ -35,10 +35,35 @@ Definition delete_if_exists (path : bytes) (remove : bytes -> W -> W * ores unit
   | (w1, OExn x) => (w1, OExn x)
   end.
 
-(* try: os.write(fd, content)  finally: os.close(fd)
+(* view = memoryview(content)
+   while len(view): view = view[os.write(fd, view):]
+   — os.write may transfer fewer bytes than asked for; the loop goes on with what is left.
+   [view[n:]] is Python slicing ([zslice]).  [None] = fuel exhausted (never happens when
+   every write of a non-empty buffer transfers at least one byte: Proofs/C20.v,
+   write_loop_total). *)
+Fixpoint write_loop (fuel : nat) (fd : Z) (view : bytes) (w : W) : option (W * ores unit) :=
+  match fuel with
+  | O => None
+  | S k =>
+      if zlen view =? 0 then Some (w, OOk tt)
+      else
+        match rt_write rt fd view w with
+        | (w1, OOk n) => write_loop k fd (zslice (Some n) None view) w1
+        | (w1, OErr e) => Some (w1, OErr e)
+        | (w1, OExn x) => Some (w1, OExn x)
+        end
+  end.
+
+Definition write_all (fd : Z) (content : bytes) (w : W) : W * ores unit :=
+  match write_loop (S (length content)) fd content w with
+  | Some r => r
+  | None => (w, OExn OtherError)
+  end.
+
+(* try: <write everything>  finally: os.close(fd)
    — the finally clause always runs; an exception raised by it replaces a pending one *)
 Definition write_and_close (fd : Z) (content : bytes) (w : W) : W * ores unit :=
-  let (w1, rw) := rt_write rt fd content w in
+  let (w1, rw) := write_all fd content w in
   let (w2, rc) := rt_close rt fd w1 in
   match rc with
   | OOk _ => match rw with OOk _ => (w2, OOk tt) | OErr e => (w2, OErr e) | OExn x => (w2, OExn x) end
@@ -48,7 +73,7 @@ Definition write_and_close (fd : Z) (content : bytes) (w : W) : W * ores unit :=
 
 (* if path: ensure_tree(path)
    (fd, path) = tempfile.mkstemp(suffix=suffix, dir=path, prefix=prefix)
-   try: os.write(fd, content) finally: os.close(fd)
+   try: <write everything> finally: os.close(fd)
    return path *)
 Definition write_to_tempfile (content : bytes) (path : option bytes) (suffix prefix : bytes) (w : W)
   : W * ores bytes :=
